@@ -51,6 +51,8 @@ pub fn check_case(ctx: &Ctx, st: &mut Stats, c: &Case, tag: &str) {
         args.push(input.display().to_string());
     }
     if c.io == 2 {
+        // the output file already exists and is longer than what will be written
+        let _ = std::fs::write(&output, super::common::stale_content());
         args.push(output.display().to_string());
     }
     let out = cli::run(&ctx.bin("max_clique_gen"), &args, stdin.as_deref(), Some(&dir), None, Duration::from_secs(60));
